@@ -39,6 +39,24 @@ func checkC08(r *Run) {
 		}
 		r.Check("C08-R4", FnName(f)+": an empty chain is walked successfully (returns nil when the length is 0)", r.P.Pos(f.Pos()), emptyOK, "")
 	}
+	// the forced verification fails only for the reviewed reasons: the bucket probe, opening the chain, the walk
+	// (signatures) and the history check; anything else it reads must not turn a valid (possibly still empty)
+	// database into a start-up failure
+	r.RejectsAre("C08-R4", "visor.CheckDatabase", 3,
+		"visor/dbutil.DB.View($0, *, closure(*))", "visor.NewBlockchain($0, *)#1", "visor.Blockchain.WalkChain(visor.NewBlockchain($0, *)#0, *", "local:error")
+	if cd := r.P.Fn("visor.CheckDatabase"); cd != nil {
+		for _, f := range r.P.ModFns {
+			if f.Parent() != cd {
+				continue
+			}
+			for _, e := range r.P.Facts(f).Exits() {
+				if e.Kind == ExitSuccess || e.Kind == ExitPanic {
+					continue
+				}
+				r.Check("C08-R4", FnName(f)+": the closures of CheckDatabase fail only on a bad block signature", r.P.Pos(e.Pos), glob("visor.Blockchain.VerifySignature(*", e.Desc), "fails with "+trunc(e.Desc, 120))
+			}
+		}
+	}
 	// R1
 	if fn := r.fn("C08-R1", "visor.Blockchain.WalkChain"); fn != nil {
 		res := r.P.goroutinePairing(fn)
